@@ -45,8 +45,29 @@ func (s *ConnSniffer) Read(p []byte) (n int, err error) {
 	return s.Sniffer.Read(p)
 }
 
-func (s *ConnSniffer) CopyRelayRemainder(dst io.Writer, buf []byte) (int64, error) {
+// CopyRelayRemainder copies the rest of the stream straight from the wrapped
+// connection once the sniffed prefix has been taken. The signature must match
+// the relay's continuation-source capability (dst, buf, record); otherwise the
+// relay falls back to Read, which replays a sniff-window timeout as a
+// connection error.
+func (s *ConnSniffer) CopyRelayRemainder(dst io.Writer, buf []byte, record func(int64)) (int64, error) {
+	if record != nil {
+		dst = &recordingWriter{w: dst, record: record}
+	}
 	return copyDirect(dst, s.Conn, buf)
+}
+
+type recordingWriter struct {
+	w      io.Writer
+	record func(int64)
+}
+
+func (r *recordingWriter) Write(p []byte) (int, error) {
+	n, err := r.w.Write(p)
+	if n > 0 {
+		r.record(int64(n))
+	}
+	return n, err
 }
 
 func (s *ConnSniffer) TakeRelaySegments() [][]byte {
